@@ -424,7 +424,7 @@ PROPS = {
             'descriptor the shell holds for itself), saves the target in a descriptor of the shell\'s own (>= MIN_INTERNAL_FD, close-on-exec), '
             'changes the target only, and on ANY failure - expansion, open, a refused descriptor, dup2 - leaves the table exactly as it was '
             '(finding F6: the backing copy used to stay open; fixed); RedirGuard keeps the invariant "undoing the recorded saves, last first, '
-            'gives back the table the guard started from" through perform_redir whether it succeeds or fails; undo_redirs and Drop restore '
+            'gives back the table the guard started from" through perform_redir whether it succeeds or fails, and through perform_redirs - the loop over all the redirections of one command - however many were performed before one failed; undo_redirs and Drop restore '
             'exactly that table and hold nothing afterwards, in reverse order, for any number of redirections including several of the '
             'same descriptor; preserve_redirs (exec) keeps the redirected descriptors and closes every backing copy; the run-time '
             'assertions of the code (assert_eq!/assert_ne!) cannot fail. Restoration clauses are stated under the hypothesis that close '
@@ -451,7 +451,7 @@ PROPS = {
             'await points are dropped (strip-async): nothing else runs in between',
             'unit fullcompound: the same assumptions as unit funcall for the guard; executing the compound command, the handler, apply_errexit and the tracer are opaque calls observed by a ghost monitor',
             'unit funcall (callers of the guard): RAII of RedirGuard is assumed as a whole in the contract of RedirGuard::new (external_body: when the guard goes away the redirections in effect are those of before), perform_redirs / the error handler / perform_assignments / the function body / the utility starter are opaque calls observed by a ghost monitor; await points dropped',
-            'Env reduced to the system field; RedirGuard passes itself where &mut Env is expected (DerefMut): checked as `self.env`; `for x in v.drain(..).rev()` is checked as `while let Some(x) = v.pop()`, `for x in v.drain(..)` through a helper with an assumed contract; Drop::drop is checked as an inherent method with the same body',
+            'Env reduced to the system field; RedirGuard passes itself where &mut Env is expected (DerefMut): checked as `self.env`; `for x in v.drain(..).rev()` is checked as `while let Some(x) = v.pop()`, `for x in v.drain(..)` through a helper with an assumed contract; the generic `I: IntoIterator<Item = &Redir>` parameter of perform_redirs is checked at `&[Redir]` (rule sig-tokens); Option::or and Option::as_deref_mut (helper) have assumed contracts; Drop::drop is checked as an inherent method with the same body',
             'Location, Word, Text, HereDoc, Field, XTrace, expansion errors, CString, NulError, ParseIntError are opaque placeholders; EnumSet<T> is a ghost set of flags with assumed contracts for empty / | / into / contains; Mode, the option set (one option) and file status (one bit) are reduced models; Errno::EBADF = 9, EEXIST = 17, ENOENT = 2',
         ],
     },
